@@ -1387,6 +1387,169 @@ theorem get_no_panic (n : Node) : ∀ (k : List Nib), Canon n → TermKey k → 
         rcases h2 with h | ⟨v, _, h⟩ <;> rw [h] <;> simp [Mpt.get]
       · exact ih x r (h1 x hx) (term_tail hk hx)
 
+/-! ### the reference collapse is injective when `hashOf` is -/
+
+theorem rawN_inj (a : Node) : ∀ b, rawN a = rawN b → a = b := by
+  induction a with
+  | empty => intro b h; cases b <;> simp [rawN] at h <;> rfl
+  | value v => intro b h; cases b <;> simp [rawN] at h; rw [h]
+  | short K c ih =>
+    intro b h
+    cases b <;> simp [rawN] at h
+    rw [h.1, ih _ h.2]
+  | full ch ih =>
+    intro b h
+    cases b <;> simp [rawN] at h
+    congr 1
+    funext i
+    exact ih i _ (congrFun h i)
+
+def storable : CNode → Bool
+  | .empty => false
+  | .hash _ => false
+  | _ => true
+
+theorem storeRef_storable (hs : Hasher) (c : CNode) (hc : storable c = true) (force : Bool) :
+    storeRef hs c none force = if hs.small c && !force then c else .hash (hs.hashOf c) := by
+  cases c <;> simp [storable] at hc <;> rfl
+
+theorem storeRef_inj (hs : Hasher) (hinj : ∀ a b, hs.hashOf a = hs.hashOf b → a = b) (c1 c2 : CNode)
+    (h1 : storable c1 = true) (h2 : storable c2 = true) (force : Bool)
+    (h : storeRef hs c1 none force = storeRef hs c2 none force) : c1 = c2 := by
+  rw [storeRef_storable hs c1 h1, storeRef_storable hs c2 h2] at h
+  by_cases a1 : (hs.small c1 && !force) = true <;> by_cases a2 : (hs.small c2 && !force) = true
+  · rw [if_pos a1, if_pos a2] at h; exact h
+  · rw [if_pos a1, if_neg a2] at h; rw [h] at h1; simp [storable] at h1
+  · rw [if_neg a1, if_pos a2] at h; rw [← h] at h2; simp [storable] at h2
+  · rw [if_neg a1, if_neg a2] at h
+    simp only [CNode.hash.injEq] at h
+    exact hinj _ _ h
+
+theorem refKids_storable (hs : Hasher) (n : Node) (hn : n ≠ .empty) : storable (refKids hs n) = true := by
+  cases n <;> first | exact absurd rfl hn | rfl
+
+theorem refC_eq_storeRef (hs : Hasher) (n : Node) (force : Bool) (hn : n ≠ .empty) :
+    refC hs n force = storeRef hs (refKids hs n) none force := by
+  cases n <;> first | exact absurd rfl hn | rfl
+
+theorem storeRef_ne_empty (hs : Hasher) (c : CNode) (hc : storable c = true) (force : Bool) :
+    storeRef hs c none force ≠ .empty := by
+  rw [storeRef_storable hs c hc]
+  intro h
+  by_cases a : (hs.small c && !force) = true
+  · rw [if_pos a] at h; rw [h] at hc; simp [storable] at hc
+  · rw [if_neg a] at h; cases h
+
+theorem storeRef_not_value_of_branch (hs : Hasher) (c : CNode) (hc : c.isBranch = true) (force : Bool) (v : Val) :
+    storeRef hs c none force ≠ .value v := by
+  rw [storeRef_branch hs c hc]
+  intro h
+  by_cases a : (hs.small c && !force) = true
+  · rw [if_pos a] at h; rw [h] at hc; simp [CNode.isBranch] at hc
+  · rw [if_neg a] at h; cases h
+
+/-- **the reference (embedded node or hash) determines the trie**, if `hashOf` is injective -/
+theorem refC_inj (hs : Hasher) (hinj : ∀ a b, hs.hashOf a = hs.hashOf b → a = b) (n1 : Node) :
+    ∀ (n2 : Node) (force : Bool), refC hs n1 force = refC hs n2 force → n1 = n2 := by
+  induction n1 with
+  | empty =>
+    intro n2 force h
+    by_cases hn : n2 = .empty
+    · exact hn.symm
+    · rw [refC_eq_storeRef hs n2 force hn] at h
+      exact absurd h.symm (storeRef_ne_empty hs _ (refKids_storable hs n2 hn) force)
+  | value v =>
+    intro n2 force h
+    by_cases hn : n2 = .empty
+    · subst hn
+      rw [refC_eq_storeRef hs (.value v) force (by simp)] at h
+      exact absurd h (storeRef_ne_empty hs _ rfl force)
+    · rw [refC_eq_storeRef hs (.value v) force (by simp), refC_eq_storeRef hs n2 force hn] at h
+      have := storeRef_inj hs hinj _ _ rfl (refKids_storable hs n2 hn) force h
+      cases n2 <;> simp [refKids] at this
+      rw [this]
+  | short K c ih =>
+    intro n2 force h
+    by_cases hn : n2 = .empty
+    · subst hn
+      rw [refC_eq_storeRef hs (.short K c) force (by simp)] at h
+      exact absurd h (storeRef_ne_empty hs _ rfl force)
+    · rw [refC_eq_storeRef hs (.short K c) force (by simp), refC_eq_storeRef hs n2 force hn] at h
+      have hk := storeRef_inj hs hinj _ _ rfl (refKids_storable hs n2 hn) force h
+      cases n2 with
+      | empty => exact absurd rfl hn
+      | value v => rw [refKids_short] at hk; cases hk
+      | full ch => rw [refKids_short, refKids_full] at hk; cases hk
+      | short K2 c2 =>
+        rw [refKids_short, refKids_short] at hk
+        simp only [CNode.short.injEq] at hk
+        obtain ⟨e1, e2⟩ := hk
+        subst e1
+        congr 1
+        -- the child references
+        cases c with
+        | value v =>
+          cases c2 with
+          | value v2 => simp only [childRef, CNode.value.injEq] at e2; rw [e2]
+          | empty => simp [childRef, refC] at e2
+          | short K3 c3 =>
+            exact absurd e2.symm (by
+              show refC hs (.short K3 c3) false ≠ _
+              rw [refC_short]; exact storeRef_not_value_of_branch hs _ rfl false v)
+          | full ch3 =>
+            exact absurd e2.symm (by
+              show refC hs (.full ch3) false ≠ _
+              rw [refC_full]; exact storeRef_not_value_of_branch hs _ rfl false v)
+        | empty =>
+          cases c2 with
+          | value v2 => simp [childRef, refC] at e2
+          | empty => rfl
+          | short K3 c3 => exact ih _ false e2
+          | full ch3 => exact ih _ false e2
+        | short K1 c1 =>
+          cases c2 with
+          | value v2 =>
+            exact absurd e2 (by
+              show refC hs (.short K1 c1) false ≠ _
+              rw [refC_short]; exact storeRef_not_value_of_branch hs _ rfl false v2)
+          | empty => exact ih _ false e2
+          | short K3 c3 => exact ih _ false e2
+          | full ch3 => exact ih _ false e2
+        | full ch1 =>
+          cases c2 with
+          | value v2 =>
+            exact absurd e2 (by
+              show refC hs (.full ch1) false ≠ _
+              rw [refC_full]; exact storeRef_not_value_of_branch hs _ rfl false v2)
+          | empty => exact ih _ false e2
+          | short K3 c3 => exact ih _ false e2
+          | full ch3 => exact ih _ false e2
+  | full ch ih =>
+    intro n2 force h
+    by_cases hn : n2 = .empty
+    · subst hn
+      rw [refC_eq_storeRef hs (.full ch) force (by simp)] at h
+      exact absurd h (storeRef_ne_empty hs _ rfl force)
+    · rw [refC_eq_storeRef hs (.full ch) force (by simp), refC_eq_storeRef hs n2 force hn] at h
+      have hk := storeRef_inj hs hinj _ _ rfl (refKids_storable hs n2 hn) force h
+      cases n2 with
+      | empty => exact absurd rfl hn
+      | value v => rw [refKids_full] at hk; cases hk
+      | short K2 c2 => rw [refKids_short, refKids_full] at hk; cases hk
+      | full ch2 =>
+        rw [refKids_full, refKids_full] at hk
+        simp only [CNode.full.injEq] at hk
+        congr 1
+        funext i
+        have hi := congrFun hk i
+        by_cases h16 : i = 16
+        · subst h16
+          simp only [if_true] at hi
+          exact rawN_inj _ _ hi
+        · simp only [h16, if_false] at hi
+          exact ih i _ false hi
+
+
 /-! ### `Trie.Commit`, `Trie.Hash`, `trie.New` -/
 
 /-- the hasher parameters alone (cache generation and limit do not enter the invariant) -/
